@@ -46,5 +46,8 @@ func profiles(rng *rand.Rand, tier string) []c04.Profile {
 		ps = append(ps, c04.Profile{Steps: 8 + rng.Intn(6), DeleteBias: 3, ForkBias: 0.8, TinyCache: true, TxHeavy: true, Exhaust: i%2 == 1})
 	}
 	// failure-injection family (c04/inject.go): every application hook / publication failing once at every step kind
-	return append(ps, c04.InjectProfiles(rng, tier)...)
+	ps = append(ps, c04.InjectProfiles(rng, tier)...)
+	// reorganisations of depth 1..4 across validator / threshold / weight changes, judged against a fresh node that was
+	// given only the surviving chain (c04/reorgfresh.go, c05-reorg-history-dependent); appended last, no draw here
+	return append(ps, c04.ReorgProfiles(tier)...)
 }
